@@ -1718,6 +1718,12 @@ func (p *scionPacketProcessor) process() disposition {
 	if disp := p.determinePeer(); disp != pForward {
 		return disp
 	}
+	// The ingress SegID update comes before every validation that can answer with SCMP:
+	// prepareSCMP reverses the path as found in the packet and undoes exactly this update
+	// when the answer leaves through the link the packet came from.
+	if disp := p.updateNonConsDirIngressSegID(); disp != pForward {
+		return disp
+	}
 	if disp := p.validateHopExpiry(); disp != pForward {
 		return disp
 	}
@@ -1734,9 +1740,6 @@ func (p *scionPacketProcessor) process() disposition {
 		return disp
 	}
 	if disp := p.validateSrcHost(); disp != pForward {
-		return disp
-	}
-	if disp := p.updateNonConsDirIngressSegID(); disp != pForward {
 		return disp
 	}
 	if disp := p.verifyCurrentMAC(); disp != pForward {
